@@ -333,6 +333,7 @@ is_limited.stmt_hints = [
     ("recent_timestamps.insert(0", {"_pre": "recent_timestamps"}, ["sorted_cons(_pre, recent_timestamps)"]),
 ]
 evaluate_rules.reveal = ("*",)
+evaluate_rules.ghost_const = ("clock",)
 
 
 # =============================================================================================
